@@ -190,7 +190,21 @@ pub fn run(ctx: &mut Ctx) {
     ];
     validate_encoder(ctx);
 
-    let family = format_family(4, if thorough { 1 } else { 4 });
+    let mut family = format_family(4, if thorough { 1 } else { 4 });
+    // names at the size limits of the format: term names of 246 / 247 / 254 / 255 bytes, a 255-byte gene name,
+    // a 300-byte disease name (the name length of diseases is a u32)
+    for (i, len) in [246usize, 247, 248, 254, 255].iter().enumerate() {
+        let mut f = Facts::default();
+        f.version = (2024, 2, 29);
+        f.terms = vec![Facts::term(1, "All"), Facts::term(118, &"P".repeat(*len)), Facts::term(200 + i as u32, &format!("{}\u{e9}", "n".repeat(len - 2)))];
+        f.edges = vec![(118, 1), (200 + i as u32, 118)];
+        f.anns = vec![
+            Facts::ann(crate::model::Kind::Gene, 11, &"G".repeat(255), Some(118)),
+            Facts::ann(crate::model::Kind::Omim, 600_001, &"D".repeat(300), Some(200 + i as u32)),
+            Facts::ann(crate::model::Kind::Orpha, 77, &"O".repeat(256), Some(1)),
+        ];
+        family.push((f, format!("term names of {len} bytes, 255-byte gene name, 300-byte disease name")));
+    }
     // ---- Space A: conformance in all record orders
     ctx.space("conformance/v1-v3/record-orders", &format!("{} fact sets x versions 1,2,3; term records: all orders; parent records: all orders; gene/omim/orpha records: all orders; ids inside records reversed; parentless terms without parent record", family.len()));
     for (f, what) in &family {
